@@ -56,7 +56,10 @@ CmdSet ==
      [kind |-> "adr", cmds |-> <<[dr |-> 3, pw |-> 2, chmask |-> <<3, 0>>, cntl |-> 0, nbtrans |-> 1]>>]}
     \cup (IF Fixed THEN {} ELSE
           {[kind |-> "newch", idx |-> 3, freq |-> InBand + 1000000, dmin |-> 0, dmax |-> 5],
-           [kind |-> "dlch", idx |-> 0, freq |-> InBand + 200000]})
+           [kind |-> "dlch", idx |-> 0, freq |-> InBand + 200000],
+           \* a downlink frequency on the first slot a CFList fills: a re-join whose CFList names the same uplink
+           \* frequency there defines the channel anew (RX1 on the uplink frequency again)
+           [kind |-> "dlch", idx |-> NumJoinChannels(Region), freq |-> InBand + 400000]})
 
 Key(n, kind) == <<kind, n>>          \* abstract session keys: derived from the n-th DevNonce
 M0 == InitMac(Region, 14, 0)
@@ -84,9 +87,9 @@ NextDown == IF m.sess.down = <<>> THEN <<0, 0>> ELSE CntInc(m.sess.down)
 Downlink(q) ==
     /\ Joined(m) /\ nDown < MaxDown /\ ~SessionExpired(m)
     /\ LET m1 == AfterSendPrepare(m, FALSE)
-           sts == NaturalStatuses([m1 EXCEPT !.sess.down = NextDown, !.sess.adrCnt = 0, !.sess.pending = <<>>], <<q>>)
+           sts == NaturalStatuses([m1 EXCEPT !.sess.down = NextDown, !.sess.adrCnt = AdrZero, !.sess.pending = <<>>], <<q>>)
            v == [n |-> NextDown, confirmed |-> FALSE, fopts |-> <<>>, port |-> -1, payload |-> <<>>, classA |-> TRUE]
-           base == [m1 EXCEPT !.sess.down = NextDown, !.sess.adrCnt = 0, !.sess.pending = <<>>]
+           base == [m1 EXCEPT !.sess.down = NextDown, !.sess.adrCnt = AdrZero, !.sess.pending = <<>>]
            m2 == FoldRequests(base, <<q>>, sts)
            qd == Queue(<<>>, AnswersFor(Region, <<q>>, sts, 0), 0)
        IN m' = [m2 EXCEPT !.sess.pending = qd.pending, !.sess.up = CntInc(m.sess.up)]
@@ -112,7 +115,7 @@ JoinedOnlyByValidAccept == Joined(m) => byAccept
 NotJoinedWithoutAccept == lastEv = "nojoin" => ~Joined(m) /\ m.sess = EmptySess
 JoinRestartsSession ==
     lastEv = "join" => /\ m.sess.up = CntZero /\ m.sess.down = <<>> /\ m.sess.pending = <<>>
-                       /\ m.sess.adrCnt = 0 /\ ~m.sess.ackOwed
+                       /\ m.sess.adrCnt = AdrZero /\ ~m.sess.ackOwed
                        /\ m.sess.nwk = Key(nJoin - 1, "nwk") /\ m.sess.app = Key(nJoin - 1, "app")
 AcceptApplied ==
     [][\A ja \in JaSet :
